@@ -205,6 +205,47 @@ def schedules(ck, binary, scs, origin):
     return hits
 
 
+def handlers_in_opposite_order(ck, binary):
+    """crossing dials with nothing cached, all four ends decide, and only then the ends that were handed a fresh connection go on into
+    handlePeer - on A first the end of X then the end of Y, on B the other way round.  Registering a connection in the cache belongs to the
+    decision (it is made under the per-peer lock); if it is made later, by whoever starts the handlers, each peer keeps the connection whose
+    handlers started last and the two peers disagree with both connections alive.  (With the cache written at the decision this schedule is
+    the simultaneous dial of the known finding, whatever the order of the handlers.)"""
+    mk = lambda a, p, k: {"a": a, "p": p, "k": k, "post": {"held": [], "atdec": [], "cache": {}}}
+    steps = [mk("Dial", "A", "X"), mk("Dial", "B", "Y")]
+    steps += [mk("Read", p, k) for k in ("X", "Y") for p in ("A", "B")]
+    steps += [mk("Decide", p, k) for k in ("X", "Y") for p in ("A", "B")]
+    scs = []
+    for order in ([("A", "X"), ("A", "Y"), ("B", "Y"), ("B", "X")], [("A", "Y"), ("A", "X"), ("B", "X"), ("B", "Y")]):
+        scs.append({"pre": "none", "holdhandle": True, "steps": steps + [mk("Handle", p, k) for p, k in order]})
+    recs = ck.drive(binary, ["sched", "2"], input_lines=scs, timeout=300)
+    byi = {x["i"]: x["o"] for x in recs if "i" in x}
+    if len(byi) != len(scs):
+        raise vf.Infra("drv/reuse sched answered %d of %d directed scenarios" % (len(byi), len(scs)))
+    for i, sc in enumerate(scs):
+        res = byi[i]
+        order = [(s["a"], s["p"], s["k"]) for s in sc["steps"]]
+        ck.count("handle-order:%d" % i, True)
+        ck.traces += 1
+        # an end that was refused never reaches handlePeer: its Handle step cannot be performed, which is not an error of the run
+        fin = res.get("final")
+        if not fin:
+            raise vf.Infra("directed scenario could not be run: %s" % "; ".join(res.get("issues", [])))
+        a, b = fin["cache"]["A"], fin["cache"]["B"]
+        bad = {}
+        if a != b and _live(fin, a) and _live(fin, b):
+            bad[1] = "after the negotiations A caches %s and B caches %s, both alive" % (a, b)
+        for p, mine in (("A", a), ("B", b)):
+            if mine in ("X", "Y") and _live(fin, mine) and fin["cache"][other(p)] != mine:
+                bad.setdefault(3, "%s caches the new connection %s (alive) while %s caches %s" % (p, mine, other(p), fin["cache"][other(p)]))
+        # every other outcome of this schedule is the simultaneous dial with all ends FRESH: the known finding of clause 2, judged by the
+        # generated behaviours
+        for n, what in sorted(bad.items()):
+            ck.violation("C41:clause%d:simultaneous-dial:both-fresh:handlers-in-opposite-order" % n,
+                         "clause %d broken on two real overlay.QUIC transports (directed): %s; schedule=%s final=%s"
+                         % (n, what, " ".join("%s(%s,%s)" % o for o in order), json.dumps(fin)), {"kind": "handle", "sc": sc})
+
+
 def _dedupe(printed):
     seen, out = set(), []
     for r in printed:
@@ -331,6 +372,7 @@ def run(ck):
     for lo in range(0, len(chosen), 200):
         schedules(ck, binary, chosen[lo:lo + 200], "seeded behaviour")
     e2e(ck, binary)
+    handlers_in_opposite_order(ck, binary)
     if outside and not ck.viol:
         raise vf.Infra(outside)
     if unreproduced and not ck.viol:       # inconclusive only if nothing else was found: the seeded behaviours and the end-to-end runs were still judged
